@@ -9,6 +9,20 @@ import (
 )
 
 func init() {
+	register("chan-conc", func(args []string) int {
+		fs := flag.NewFlagSet("chan-conc", flag.ExitOnError)
+		out := fs.String("out", "-", "report")
+		fs.Parse(args)
+		rep := &sinksrep.Report{}
+		sinksrep.RunChannelConc(rep)
+		if rep.Mismatches == nil {
+			rep.Mismatches = []sinksrep.Mismatch{}
+		}
+		if err := writeJSON(*out, rep); err != nil {
+			return 2
+		}
+		return 0
+	})
 	register("sinks-replay", func(args []string) int {
 		fs := flag.NewFlagSet("sinks-replay", flag.ExitOnError)
 		vec := fs.String("vectors", "", "TLC export")
